@@ -9,7 +9,7 @@ RULE = ("sessions = a table of screen programs (stack operations, signals, raise
         "non-trivial per property: see harness/screen_check.py nontrivial()")
 
 MANIFEST = dict(
-    text='Proof: the acceptor chk_C04 (every stack primitive is the one announced by the scheduler operation in progress — push/append on top, schedule at the bottom, replace = pop + append inheriting the modality, close = pop of the top — or the discard of an entry whose setup failed; setup/refresh/draw/separator only ever concern the top entry of the ideal stack rebuilt from the events) holds for every session of the Gallina model of ScreenScheduler/ScreenStack/UIScreen on top of the MainLoop interpreter (C04_honest_stack): every table of screen programs, every typed-line sequence, every fuel.',
+    text='Proof: the acceptor chk_C04 (every stack primitive is the one announced by the scheduler operation in progress — push/append on top, schedule at the bottom, replace = pop + append inheriting the modality, close = pop of the top — or the discard of an entry whose setup failed; setup/refresh/draw/separator only ever concern the top entry of the ideal stack rebuilt from the events) holds for every session of the Gallina model of ScreenScheduler/ScreenStack/UIScreen on top of the MainLoop interpreter (C04_honest_stack): every table of screen programs, every typed-line sequence, every fuel. Since setup() callbacks can run commands of their own (push / replace / close screens, raise, ...) the theorem carries the hypothesis failing_setup_plain (a screen whose setup() can report failure runs no commands in it); without it the statement is FALSE: C04_failed_setup_after_push_refuted, reproduced on the implementation = known finding F19 (a setup() that pushed a screen and then fails makes the scheduler discard the pushed screen). The return of a setup() with commands and the refresh() that follows concern the entry the setup() was entered for, which need not be the top any more (in_setup_of); nothing is drawn then.',
     note="Trusted: Coq kernel, extraction, harness (screen_worker.py records events through subclasses / name patching and releases typed lines when the loop is idle). " + 'application callbacks are command programs (scmd) over the scheduler API; closed() callbacks that close screens synchronously are outside the model.',
     technique="Coq theorem: a trace acceptor holds for every application session of an interpreter model of the screen layer over the MainLoop model; the same extracted acceptor judges traces of the real implementation; differential correspondence model<->/repo")
 
